@@ -176,6 +176,15 @@ def stage_g(ctx, rng, jobs):
         c = R(*bs) if bs else torch.tensor(float(rng.randint(-3, 3)), dtype=torch.float64)
         specs.append(("GConstMul %s %s" % (tlit_torch(c), tlit_torch(a)), O.ConstantMulLinearOperator(D(a), c), "ConstantMul"))
         specs.append(("GZero %s" % natlist(bs + [m, n]), O.ZeroLinearOperator(*bs, m, n, dtype=torch.float64), "Zero"))
+        rt = R(*bs, m, k)
+        specs.append(("GRoot %s" % tlit_torch(rt), O.RootLinearOperator(rt), "Root"))
+        # classes that inherit the default LinearOperator._getitem: the model is two-stage indexing of the dense matrix
+        for dop, dname in ((O.ToeplitzLinearOperator(R(*bs, m)), "Toeplitz(default)"),
+                           (O.DiagLinearOperator(R(*bs, n)), "Diag(default)"),
+                           (O.KroneckerProductLinearOperator(D(R(*bs, m, k)), D(R(*bs, k, n))), "Kronecker(default)")):
+            dd = dop.to_dense()
+            if lib.integral(dd):
+                specs.append(("GDefault %s" % tlit_torch(dd), dop, dname))
         for lit, op, name in specs:
             shape = list(op.shape)
             for _ in range(2):
